@@ -31,6 +31,12 @@ func Scripted(prop string) []*Scenario {
 			Ops: []OpSpec{ins("f", 1, 2, 3), ins("f", 1, 1), ins("f", 1, 2, 3), ins("f", 1, 4, 5), ins("f", 1, 5), ins("f", 1, 1, 2, 3)}},
 		{Name: "headers", Nodes: nodes, Ops: []OpSpec{hdr("h", 1, 1, 2, 3), hdr("h", 2, 4), hdr("h", 3, 5, 6), {Sess: "h", Kind: "reopen"}, hdr("h", 4, 7, 8), hdr("h", 4, 2)}},
 	}
+	rb := func(n ...int) OpSpec { return OpSpec{Sess: "f", Kind: "rollback", Nodes: n} }
+	out = append(out,
+		// Rollback of the last header(s), then the sync resumes on the CHILD of a block that is still stored:
+		// reorg's old chain is empty ("Impossible reorg" is logged) and the stored blocks are re-adopted
+		&Scenario{Name: "rollback-then-next", Nodes: []NodeSpec{{}, v(0, 100, tx(0, 0)), v(1, 100), v(2, 100, tx(1, 0)), v(3, 100), v(4, 100), v(2, 100)},
+			Ops: []OpSpec{ins("f", 1, 1, 2, 3), rb(3), ins("f", 1, 4), rb(3, 4), ins("f", 1, 5), rb(2, 3, 4, 5), {Sess: "f", Kind: "reopen"}, ins("f", 1, 4, 5), rb(5), ins("f", 1, 6), ins("f", 1, 5)}})
 	if prop == "C03" {
 		out = append(out,
 			&Scenario{Name: "sethead", Nodes: nodes, Ops: []OpSpec{ins("f", 1, 1, 2, 3), {Sess: "f", Kind: "sethead", N: 1}, ins("f", 2, 5), {Sess: "f", Kind: "reopen"}, ins("f", 3, 2, 3), {Sess: "f", Kind: "sethead", N: 0}, ins("f", 3, 1, 2, 3)}},
@@ -164,6 +170,24 @@ func RandomScenario(rng *vh.RNG, prop string, name string, maxBlocks int) *Scena
 			continue
 		case rng.Chance(5):
 			sc.Ops = append(sc.Ops, OpSpec{Sess: sess, Kind: "reopen"})
+			continue
+		case sess == "f" && rng.Chance(4):
+			// roll back the last k blocks of some delivered branch (the runner passes the hashes as given;
+			// hashes that are not the current head are simply skipped by Rollback)
+			var cand []int
+			for i := 1; i < n; i++ {
+				if sent[i] {
+					cand = append(cand, i)
+				}
+			}
+			if len(cand) > 0 {
+				tip := cand[rng.Intn(len(cand))]
+				var hs []int
+				for k, b := 1+rng.Intn(3), tip; k > 0 && b != 0; k, b = k-1, sc.Nodes[b].Parent {
+					hs = append([]int{b}, hs...)
+				}
+				sc.Ops = append(sc.Ops, OpSpec{Sess: sess, Kind: "rollback", Nodes: hs})
+			}
 			continue
 		case sess == "m" && rng.Chance(25):
 			// headers running ahead of the blocks
